@@ -29,7 +29,7 @@ func init() {
 			if t == "thorough" {
 				return 4000
 			}
-			return 320
+			return 240
 		},
 		Batch:  func(t string) int { return 20 },
 		Floors: []string{"roundtrips", "failed_decodes_before_roundtrip", "independent_decodes", "concurrent_histories"},
